@@ -675,12 +675,27 @@ func indexAssign(t string) int {
 
 func splitList(s string) []string {
 	var out []string
-	for _, p := range strings.Split(s, ",") {
-		p = strings.TrimSpace(p)
+	depth, start := 0, 0
+	flush := func(end int) {
+		p := strings.TrimSpace(s[start:end])
 		if p != "" {
 			out = append(out, p)
 		}
 	}
+	for i := 0; i < len(s); i++ {
+		switch s[i] {
+		case '(', '[':
+			depth++
+		case ')', ']':
+			depth--
+		case ',':
+			if depth == 0 {
+				flush(i)
+				start = i + 1
+			}
+		}
+	}
+	flush(len(s))
 	return out
 }
 
